@@ -13,6 +13,13 @@ from vlib import paths
 #             raw = built with the base class Gate (user gates, unusual shapes); otherwise add_gate(name)
 #   meas op : {"k":"m","t":[…],"s":int|None}      s = None: classical_store=None (the result is not stored)
 #   global  : {"k":"G","name":str,"label":str|None}   gate with targets = controls = None (GLOBALPHASE)
+#   object form of an element (how it gets into the circuit; the model does not see it): op["form"] in FORMS_G / FORMS_M
+#   (default: "gate" if raw else "name"), op["cont"] in CONTS = container / index types of targets, controls, classical_store,
+#   op["cv"] = control_value (ControlledGate) — see make_obj
+#   live-object history: w["ops0"] = the circuit at the FIRST drawing, w["edits"] = what is then done to the live objects
+#   (re-assigned fields, appended / inserted / removed elements) — w["ops"] is the circuit at the SECOND drawing, the one
+#   the model sees; w["reuse"] in REUSE = how the second drawing is made (see impl_draw_saved)
+#   w["before"] = [witness, …]: OTHER circuits drawn earlier in the same process (nothing of them may influence the drawing)
 # style keys given to draw(): gate_pad, end_wire_ext, align_layer, wire_label and "ignored" = dict of
 # StyleConfig fields the text renderer does not read (passed to the code, not to the model).
 
@@ -30,7 +37,7 @@ GLYPHS = set("┤├█│┴┬╳╥║╩╨─═┌┐└┘")
 
 # ------------------------------------------------------------------------------------------
 # which of the repairs (fixes/C20-1..4) does the working tree contain?  (AST, formatting independent)
-VARIANT = {"spanFix": False, "insideNode": False, "globalBox": False, "measBox": False}     # set by C20.regenerate
+VARIANT = {"spanFix": False, "insideNode": False, "globalBox": False, "measBox": False, "resetLayout": False}   # set by C20.regenerate
 RECOGNISED = [True]      # False: the tree is none of the 16 variants; the sweeps then cover the whole domain
 _SPAN_OLD = ["sorted_controls[-1] > sorted_targets[0]", "sorted_controls[0] < sorted_targets[-1]",
              "wire not in gate.targets",
@@ -103,7 +110,16 @@ def detect_variant():
     else:
         meas = sum(m_seen) >= 2
         problems.append("handling of classical_store=None in the text renderer not recognised: " + repr(m_seen))
-    return {"spanFix": span, "insideNode": inside, "globalBox": glob, "measBox": meas}, problems
+    # does layout() start from empty rows (fixes/C20-5)?
+    body = [n for n in fns["layout"].body if not (isinstance(n, ast.Expr) and isinstance(n.value, ast.Constant))]
+    first = ast.unparse(body[0]) if body else ""
+    writes = [n for n in ast.walk(fns["layout"]) if isinstance(n, (ast.Assign, ast.AugAssign)) and any(
+        isinstance(t, ast.Attribute) and t.attr in ("_render_strs", "_layer_list")
+        for t in (n.targets if isinstance(n, ast.Assign) else [n.target]))]
+    reset = first == "self._reset_frames()" and "_reset_frames" in fns
+    if first != "self._add_wire_labels()" and not reset or writes:
+        problems.append("start of TextRenderer.layout not recognised: " + first[:80])
+    return {"spanFix": span, "insideNode": inside, "globalBox": glob, "measBox": meas, "resetLayout": reset}, problems
 
 
 def _impl():
@@ -112,22 +128,182 @@ def _impl():
     return QubitCircuit, Gate
 
 
-def build(w):
-    QubitCircuit, Gate = _impl()
-    qc = QubitCircuit(w["N"], num_cbits=w["C"])
-    for op in w["ops"]:
-        if op["k"] == "m":
-            qc.add_measurement("M", targets=list(op["t"]), classical_store=op["s"])
-        elif op["k"] == "G":
-            qc.add_gate(op["name"], arg_value=0.5, arg_label=op["label"])
-        elif op.get("raw"):
-            qc.add_gate(Gate(name=op["name"], targets=list(op["t"]),
-                             controls=None if op["c"] is None else list(op["c"]),
-                             arg_label=op["label"], classical_controls=op.get("cc")))
+# ---- object forms -------------------------------------------------------------------------------------------
+FORMS_G = ("name",      # qc.add_gate("CNOT", targets=…, controls=…)
+           "gate",      # qc.add_gate(Gate(name=…, targets=…, controls=…))            generic Gate object, any name
+           "class",     # qc.add_gate(CNOT(targets=…, controls=…))                    instance of the library class
+           "ctrl",      # qc.add_gate(ControlledGate(controls, targets, control_value, target_gate))   name "ControlledGate"
+           "moved",     # built into ANOTHER circuit; that circuit's gate object is added to this one
+           "block",     # built into a smaller circuit which is inserted with qc.add_circuit(sub, start)
+           "append")    # qc.gates.append(Gate(…))
+FORMS_M = ("name",      # qc.add_measurement("M", targets=…, classical_store=…)
+           "obj",       # qc.add_measurement(Measurement("MZ", targets=…, classical_store=…))
+           "block", "append")
+CONTS = ("list", "npint",       # list of int / list of numpy integers
+         "scalar", "npscalar",  # a bare int / numpy integer where the list has one element (the constructors wrap it)
+         "tuple", "ndarray")    # only where the library works with them: one-target gates without controls, measurements
+REUSE = ("draw",        # qc.draw("text", save=True) again                                  (fresh renderer)
+         "relayout",    # r = TextRenderer(qc); r.layout(); <edits>; r.layout(); r.save()    (the same renderer object)
+         "reprint")     # r.layout(); then r.print_circuit() and r.save() (no edits): prints the same picture again
+
+
+def _np():
+    import numpy
+    return numpy
+
+
+def _cont(idx, cont, single_ok=True):
+    """the index list `idx` in the container form `cont`"""
+    if idx is None:
+        return None
+    idx = list(idx)
+    if cont == "npint":
+        return [_np().int64(x) for x in idx]
+    if cont in ("scalar", "npscalar") and len(idx) == 1 and single_ok:
+        return idx[0] if cont == "scalar" else _np().int64(idx[0])
+    if cont == "tuple":
+        return tuple(idx)
+    if cont == "ndarray":
+        return _np().array(idx, dtype=int)
+    return idx
+
+
+def form_of(op):
+    return op.get("form") or ("gate" if op.get("raw") else "name")
+
+
+def expected_name(op):
+    """gate.name as the constructors set it for this form (the renderer prints gate.name)"""
+    return op["name"]
+
+
+def make_obj(op, shift=0):
+    """the Gate / Measurement object of a witness element (indices lowered by `shift` for form "block")"""
+    from qutip_qip.operations import Gate, Measurement
+    from qutip_qip.operations.gateclass import ControlledGate
+    from qutip_qip.operations import GATE_CLASS_MAP
+    cont = op.get("cont", "list")
+    if op["k"] == "m":
+        st = op["s"]
+        if st is not None and cont in ("npint", "npscalar", "ndarray"):
+            st = _np().int64(st)
+        return Measurement("M" if form_of(op) == "name" else "MZ", targets=_cont([t - shift for t in op["t"]], cont),
+                           classical_store=st)
+    plain = cont not in ("tuple", "ndarray") or (len(op["t"]) == 1 and op["c"] is None)
+    ts = _cont([t - shift for t in op["t"]], cont if plain else "list")
+    cs = _cont(None if op["c"] is None else [c - shift for c in op["c"]], cont if plain else "list", single_ok=bool(op["c"]))
+    cc = _cont(op.get("cc"), "npint" if cont in ("npint", "npscalar") else "list")
+    f = form_of(op)
+    if f == "ctrl":
+        import qutip_qip.operations as O
+        tg = {1: O.X, 2: O.SWAP}[len(op["t"])]
+        return ControlledGate(controls=cs, targets=ts, control_value=op.get("cv", 2 ** len(op["c"]) - 1), target_gate=tg,
+                              arg_label=op["label"], classical_controls=cc)
+    if f in ("class", "name") or (f in ("moved", "block") and not op.get("raw")):
+        cls = GATE_CLASS_MAP.get(op["name"], Gate)
+        kw = dict(targets=ts, arg_value=ARGV.get(op["name"]), arg_label=op["label"], classical_controls=cc)
+        if cs is not None or cls is Gate:
+            kw["controls"] = cs
+        if getattr(cls, "__name__", None) != op["name"]:
+            kw["name"] = op["name"]          # generic Gate, alias (SNOT -> H) or partial of a controlled class (CX, CRZ, …)
+        return cls(**kw)
+    return Gate(name=op["name"], targets=ts, controls=cs, arg_label=op["label"], classical_controls=cc)
+
+
+def add_op(qc, op):
+    """put one witness element into the live circuit `qc`, in the object form it asks for"""
+    from qutip_qip.circuit import QubitCircuit
+    from qutip_qip.operations import Gate, Measurement
+    f, cont = form_of(op), op.get("cont", "list")
+    if op["k"] == "G":
+        qc.add_gate(op["name"], arg_value=0.5, arg_label=op["label"])
+    elif f == "block":
+        qs = list(op["t"]) + list(op.get("c") or [])
+        shift = min(qs) if qs and min(qs) >= 0 else 0
+        sub = QubitCircuit(max(1, qc.N - shift), num_cbits=qc.num_cbits)
+        o = make_obj(op, shift)
+        sub.add_measurement(o) if op["k"] == "m" else sub.add_gate(o)
+        qc.add_circuit(sub, start=shift)
+    elif f == "moved":
+        other = QubitCircuit(qc.N, num_cbits=qc.num_cbits)
+        other.add_gate("X", targets=[0])
+        other.add_gate(make_obj(op))
+        qc.add_gate(other.gates[1])
+    elif f == "append":
+        qc.gates.append(make_obj(op))
+    elif op["k"] == "m":
+        if f == "obj":
+            qc.add_measurement(make_obj(op))
         else:
-            qc.add_gate(op["name"], targets=list(op["t"]), controls=None if op["c"] is None else list(op["c"]),
-                        arg_value=ARGV.get(op["name"]), arg_label=op["label"], classical_controls=op.get("cc"))
+            o = make_obj(op)
+            qc.add_measurement("M", targets=o.targets if cont == "list" else _cont(op["t"], cont), classical_store=o.classical_store)
+    elif f == "name":
+        plain = cont not in ("tuple", "ndarray") or (len(op["t"]) == 1 and op["c"] is None)
+        c_ = cont if plain else "list"
+        qc.add_gate(op["name"], targets=_cont(op["t"], c_), controls=_cont(op["c"], c_, single_ok=bool(op["c"])),
+                    arg_value=ARGV.get(op["name"]), arg_label=op["label"], classical_controls=op.get("cc"))
+    else:
+        qc.add_gate(make_obj(op))
+
+
+def build_ops(N, C, ops):
+    QubitCircuit, Gate = _impl()
+    qc = QubitCircuit(N, num_cbits=C)
+    for op in ops:
+        add_op(qc, op)
+        if op["k"] == "g" and qc.gates[-1].name != op["name"]:
+            raise AssertionError("object form %s gives gate.name %r, the witness says %r" % (form_of(op), qc.gates[-1].name, op["name"]))
     return qc
+
+
+def build(w):
+    """the circuit of the witness as it is when it is drawn (a freshly built one)"""
+    return build_ops(w["N"], w["C"], w["ops"])
+
+
+# ---- live-object histories ----------------------------------------------------------------------------------
+ATTR = {"t": "targets", "c": "controls", "label": "arg_label", "name": "name", "s": "classical_store", "cc": "classical_controls"}
+
+
+def apply_edits_spec(ops0, edits):
+    """the witness elements after the edits (pure; what the circuit must then be drawn as)"""
+    ops = [dict(o) for o in ops0]
+    for e in edits:
+        if e["e"] == "set":
+            o = dict(ops[e["i"]], **{e["field"]: e["value"]})
+            # a freshly built circuit with these fields: the generic object form (the live object keeps its class)
+            o.pop("cv", None)
+            o.update(cont="list", form="gate" if o["k"] == "g" else "obj")
+            if o["k"] == "g":
+                o["raw"] = True
+            ops[e["i"]] = o
+        elif e["e"] == "append":
+            ops.append(dict(e["op"]))
+        elif e["e"] == "insert":
+            ops.insert(e["i"], dict(e["op"]))
+        elif e["e"] == "remove":
+            del ops[e["i"]]
+    return ops
+
+
+def apply_edits_live(qc, edits):
+    """the same edits done to the live circuit: fields of its gate objects re-assigned, gates appended / inserted / removed"""
+    for e in edits:
+        if e["e"] == "set":
+            v = e["value"]
+            setattr(qc.gates[e["i"]], ATTR[e["field"]], list(v) if isinstance(v, list) else v)
+        elif e["e"] == "append":
+            add_op(qc, e["op"])
+        elif e["e"] == "insert":
+            add_op(qc, e["op"])
+            qc.gates.insert(e["i"], qc.gates.pop())
+        elif e["e"] == "remove":
+            del qc.gates[e["i"]]
+
+
+def snapshot(qc):
+    """everything of the circuit a drawing must leave alone: the gate list (object identities) and every field of every element"""
+    return (qc.N, qc.num_cbits, [(id(g), type(g).__name__, sorted((k, repr(v)) for k, v in vars(g).items())) for g in qc.gates])
 
 
 def style_kwargs(sty):
@@ -152,7 +328,7 @@ def classify_exc(e):
 def impl_draw(w, via="draw"):
     """What the real code prints: ('ok', [rows]) or (error kind, None)."""
     try:
-        qc = build(w)
+        qc = build(w)                    # always a freshly built circuit with the current fields
     except Exception as e:
         return "build:" + type(e).__name__ + ":" + str(e)[:80], None
     buf = io.StringIO()
@@ -173,6 +349,7 @@ def impl_draw(w, via="draw"):
 
 # ---- the file output path: QubitCircuit.draw('text', save=True, file_path=...) and TextRenderer(qc).layout(); .save(path)
 _SAVE = {"dir": None, "n": 0}
+_KEEP = []      # the circuits built during one evaluation of the oracle stay alive until its end (no id() is re-used inside it)
 
 
 def _save_path():
@@ -206,21 +383,53 @@ def _read_saved(path):
 def impl_draw_saved(w, via="draw"):
     """One rendering through the file output path: (verdict, printed rows, lines of the saved file).
     via = "draw": qc.draw("text", save=True, file_path=...);  "layout": r = TextRenderer(qc, **style); r.layout(); r.save(path)"""
+    from qutip_qip.circuit.text_renderer import TextRenderer
+    reuse = w.get("reuse", "draw")
     try:
-        qc = build(w)
+        qc = build_ops(w["N"], w["C"], w.get("ops0", w["ops"]))
     except Exception as e:
         return "build:" + type(e).__name__ + ":" + str(e)[:80], None, None
+    _KEEP.append(qc)
     buf = io.StringIO()
     path = _save_path()
+    kw = style_kwargs(w["style"])
+    for b in w.get("before", []):            # other circuits drawn earlier in this process (state kept across drawings?)
+        try:
+            with contextlib.redirect_stdout(io.StringIO()):
+                build(b).draw("text", **style_kwargs(b["style"]))
+        except Exception:
+            pass
     try:
+        r = None
+        if "ops0" in w or reuse != "draw":
+            # the first drawing of the history (its output is not the one judged; it must not raise)
+            before = snapshot(qc)
+            with contextlib.redirect_stdout(io.StringIO()):
+                if reuse == "draw":
+                    qc.draw("text", **kw)
+                else:
+                    r = TextRenderer(qc, **kw)
+                    r.layout()
+            if snapshot(qc) != before:
+                return "circuit-changed-by-drawing", None, None
+            apply_edits_live(qc, w.get("edits", []))
+        before = snapshot(qc)
         with contextlib.redirect_stdout(buf):
-            if via == "draw":
-                qc.draw("text", save=True, file_path=path, **style_kwargs(w["style"]))
-            else:
-                from qutip_qip.circuit.text_renderer import TextRenderer
-                r = TextRenderer(qc, **style_kwargs(w["style"]))
+            if reuse == "relayout":
                 r.layout()
                 r.save(path)
+            elif reuse == "reprint":
+                r.print_circuit()
+                r.save(path)
+            elif via == "draw":
+                qc.draw("text", save=True, file_path=path, **kw)
+            else:
+                r = TextRenderer(qc, **kw)
+                r.layout()
+                r.save(path)
+        if snapshot(qc) != before:
+            _read_saved(path)
+            return "circuit-changed-by-drawing", None, None
     except Exception as e:
         _read_saved(path)
         return classify_exc(e), None, None
@@ -257,10 +466,14 @@ def model_line(w, cmd="render"):
     sty = w["style"]
     fr = Fraction(sty.get("gate_pad", 0.05))      # exact value of the float the code receives
     assert fr > -1
-    s = "%s n=%d c=%d padn=%d padd=%d ext=%d align=%d var=%d%d%d%d" % (
+    if cmd == "render" and w.get("reuse") == "relayout":
+        cmd = "render2"          # the second layout() of one renderer object; the first one drew ops0
+    s = "%s n=%d c=%d padn=%d padd=%d ext=%d align=%d var=%d%d%d%d%d" % (
         cmd, w["N"], w["C"], fr.numerator, fr.denominator, sty.get("end_wire_ext", 2),
         1 if sty.get("align_layer", False) else 0,
-        VARIANT["spanFix"], VARIANT["insideNode"], VARIANT["globalBox"], VARIANT["measBox"])
+        VARIANT["spanFix"], VARIANT["insideNode"], VARIANT["globalBox"], VARIANT["measBox"], VARIANT["resetLayout"])
+    if cmd == "render2":
+        s += " ops0=" + "/".join(enc_op(o) for o in w.get("ops0", w["ops"]))
     wl = sty.get("wire_label")
     if wl is not None:
         s += " labels=" + "".join(enc_str(x) + ";" for x in wl)
@@ -351,8 +564,15 @@ def covered(w):
     it has fixes/C20-4.  On a tree that is none of the recognised variants: the whole domain."""
     if not in_domain(w):
         return False
+    if "ops0" in w:            # the first drawing of a history must itself be one the tree can make
+        first = {k: v for k, v in w.items() if k not in ("ops0", "edits", "reuse")}
+        first["ops"] = w["ops0"]
+        if not covered(first):
+            return False
     if not RECOGNISED[0]:
         return True
+    if w.get("reuse") == "relayout" and not VARIANT["resetLayout"]:
+        return False           # finding C20-5: a second layout() on the same renderer object
     for o in w["ops"]:
         if o["k"] == "m" and o["s"] is None and not VARIANT["measBox"]:
             return False
@@ -730,6 +950,152 @@ def matrix_cases(thorough=False):
                     {"k": "m", "t": [b], "s": 1}, {"k": "m", "t": [a], "s": unstored(0)}] + glob}
 
 
+# ---- object forms and live-object histories: generators -----------------------------------------------------
+FORM_STYLES = [
+    {}, {"gate_pad": 0, "align_layer": True},
+    {"wire_label": ["the classical register bit 0", "c", "q", "qq", "", "q three"]},      # a classical label longer than every qubit label
+    {"wire_label": ["a", "bb", "ccc", "dddd", "eeeee", "ffffff"], "gate_pad": 1.2, "end_wire_ext": 0},   # all lengths different
+]
+
+
+def forms_cases():
+    """systematic: every listed order of targets / controls of the multi-qubit gate families x every object form x
+    container type, on 4 qubits + 2 bits"""
+    N, C = 4, 2
+    k = 0
+
+    def case(op):
+        nonlocal k
+        k += 1
+        sty = FORM_STYLES[k % len(FORM_STYLES)]
+        return {"N": N, "C": C, "style": {a: (list(b) if isinstance(b, list) else b) for a, b in sty.items()}, "ops": [op]}
+    P3 = list(itertools.permutations(range(N), 3))
+    P4 = list(itertools.permutations(range(N), 4))
+    for a, b, c in P3:
+        for f in ("name", "gate", "class", "moved", "block", "append"):
+            lib = f in ("name", "class") or (f in ("moved", "block") and (a + b) % 2)
+            yield case({"k": "g", "name": "FREDKIN", "label": None, "t": [a, b], "c": [c], "cc": None, "raw": not lib, "form": f})
+            yield case({"k": "g", "name": "TOFFOLI", "label": None, "t": [a], "c": [b, c], "cc": [1] if c % 2 else None,
+                        "raw": not lib, "form": f})
+        for f in ("gate", "moved", "block", "append"):
+            yield case({"k": "g", "name": "MyGate", "label": "θ" if a % 2 else None, "t": [a, b], "c": [c], "cc": None, "raw": True, "form": f})
+        for cv in range(4):
+            yield case({"k": "g", "name": "ControlledGate", "label": None, "t": [a], "c": [b, c], "cc": None, "raw": True,
+                        "form": "ctrl", "cv": cv})
+        for cv in range(2):
+            yield case({"k": "g", "name": "ControlledGate", "label": "cSWAP" if cv else None, "t": [a, b], "c": [c], "cc": [0],
+                        "raw": True, "form": "ctrl", "cv": cv})
+    for a, b, c, d in P4:
+        for f in ("gate", "moved", "block", "append"):
+            yield case({"k": "g", "name": "U3q", "label": None, "t": [a, b, c], "c": [d], "cc": None, "raw": True, "form": f})
+            yield case({"k": "g", "name": "CCU", "label": None, "t": [a, b], "c": [c, d], "cc": None, "raw": True, "form": f})
+    for a, b in itertools.permutations(range(N), 2):
+        for cont in ("list", "npint", "scalar", "npscalar"):
+            for f in ("name", "gate", "class", "moved", "block", "append"):
+                lib = f in ("name", "class") or (f in ("moved", "block") and a % 2)
+                yield case({"k": "g", "name": "CNOT", "label": None, "t": [a], "c": [b], "cc": None, "raw": not lib, "form": f, "cont": cont})
+            yield case({"k": "g", "name": "ControlledGate", "label": None, "t": [a], "c": [b], "cc": None, "raw": True, "form": "ctrl",
+                        "cv": 1, "cont": cont})
+        for cont in ("list", "npint"):
+            for f in ("name", "class", "moved", "block"):
+                yield case({"k": "g", "name": "SWAP", "label": None, "t": [a, b], "c": None, "cc": None, "raw": False, "form": f, "cont": cont})
+            for f in ("gate", "append"):        # a generic Gate object that is NAMED SWAP is drawn as a SWAP too
+                yield case({"k": "g", "name": "SWAP", "label": None, "t": [a, b], "c": None, "cc": None, "raw": True, "form": f, "cont": cont})
+    for a in range(N):
+        for cont in CONTS:
+            for f in ("name", "gate", "class", "moved", "block", "append"):
+                lib = f in ("name", "class") or (f in ("moved", "block") and a % 2)
+                yield case({"k": "g", "name": "RX" if a % 2 else "X", "label": "π/2" if a % 2 else None, "t": [a], "c": None,
+                            "cc": [0] if a == 2 else None, "raw": not lib, "form": f, "cont": cont})
+            for st in (0, 1, None):
+                if st is None and not VARIANT["measBox"]:
+                    continue
+                for f in FORMS_M:
+                    yield case({"k": "m", "t": [a], "s": st, "form": f, "cont": cont})
+
+
+def random_forms(rng, w):
+    """give every element of a (non-malformed) witness a random applicable object form and container type"""
+    for op in w["ops"]:
+        if op["k"] == "G":
+            continue
+        op["cont"] = rng.choice(CONTS)
+        if op["k"] == "m":
+            op["form"] = rng.choice(FORMS_M)
+        elif op.get("raw"):
+            if op["c"] and len(op["t"]) <= 2 and op["name"] != "SWAP" and rng.random() < 0.3:
+                op.update(name="ControlledGate", form="ctrl", cv=rng.randrange(2 ** len(op["c"])))
+            else:
+                op["form"] = rng.choice(("gate", "moved", "block", "append"))
+        else:
+            op["form"] = rng.choice(("name", "class", "moved", "block"))
+    return w
+
+
+def _edit_gate(rng, N, C, i, old):
+    """edits that re-assign fields of the live gate object number i"""
+    new = rand_gate(rng, N, C)
+    r = rng.random()
+    if r < 0.2:
+        return [{"e": "set", "i": i, "field": "label", "value": rand_text(rng, False)}]
+    if r < 0.4 and len(old["t"]) > 1:
+        return [{"e": "set", "i": i, "field": "t", "value": list(reversed(old["t"]))}]     # the same qubits, listed the other way round
+    if r < 0.55 and old["name"] != "SWAP":
+        free = [q for q in range(N) if q not in old["t"]]
+        k = rng.randint(0, min(2, len(free)))
+        # (targets re-assigned as a list too: a numpy / tuple target container works for gates without controls only)
+        return [{"e": "set", "i": i, "field": "t", "value": list(old["t"])},
+                {"e": "set", "i": i, "field": "c", "value": sorted(rng.sample(free, k), reverse=rng.random() < 0.5) if k else None}]
+    return [{"e": "set", "i": i, "field": f, "value": new[f]} for f in ("name", "t", "c", "label")]
+
+
+def history_case(rng, for_oracle=True):
+    """a live-object history: circuit, first drawing, edits of the live objects, second drawing.  For the correspondence
+    (for_oracle=False) also the class of finding C20-5 (second layout() of one renderer object on a tree without the
+    repair): the model has that defect too."""
+    for _ in range(50):
+        w0 = random_forms(rng, rand_circuit(rng, wild=False, maxN=5, maxC=2, maxops=5))
+        if not covered(w0):
+            continue
+        N, C = w0["N"], w0["C"]
+        reuse = rng.choice(["draw"] * 5 + ["relayout"] * 3 + ["reprint"] * 2)
+        edits = []
+        ops = [dict(o) for o in w0["ops"]]
+        for _ in range(0 if reuse == "reprint" else rng.randint(1, 3)):
+            r = rng.random()
+            idx = [i for i, o in enumerate(ops) if o["k"] in "gm"]
+            if r < 0.5 and idx:
+                i = rng.choice(idx)
+                if ops[i]["k"] == "g":
+                    e = _edit_gate(rng, N, C, i, ops[i])
+                else:
+                    st = rng.choice(list(range(C)) + ([None] if VARIANT["measBox"] else [])) if C or VARIANT["measBox"] else ops[i]["s"]
+                    e = [{"e": "set", "i": i, "field": "t", "value": [rng.randrange(N)]}, {"e": "set", "i": i, "field": "s", "value": st}]
+            elif r < 0.7:
+                e = [{"e": "append", "op": random_forms(rng, {"ops": [rand_gate(rng, N, C)]})["ops"][0]}]
+            elif r < 0.85:
+                e = [{"e": "insert", "i": rng.randint(0, len(ops)), "op": random_forms(rng, {"ops": [rand_gate(rng, N, C)]})["ops"][0]}]
+            elif ops:
+                e = [{"e": "remove", "i": rng.randrange(len(ops))}]
+            else:
+                continue
+            edits += e
+            ops = apply_edits_spec(ops, e)
+        w = {"N": N, "C": C, "style": w0["style"], "ops0": w0["ops"], "edits": edits, "ops": ops, "reuse": reuse}
+        if rng.random() < 0.3:
+            # the same elements drawn before by another circuit object under another style / on other wires
+            sty2 = rand_style(rng, N, C)
+            sty2.setdefault("gate_pad", rng.choice([0, 2, 3]))
+            other = [dict(o) for o in w0["ops"]]
+            for o in other:
+                if o["k"] == "g" and o.get("c") and rng.random() < 0.5 and o["name"] != "SWAP":
+                    o.update(t=list(o["c"][:1]) + list(o["t"][1:]), c=list(o["t"][:1]) + list(o["c"][1:]), form=None, cont="list")
+            w["before"] = [{"N": N, "C": C, "style": sty2, "ops": other}]
+        if covered(w if for_oracle else dict(w, reuse="draw")):
+            return w
+    raise RuntimeError("history generator: no covered case in 50 attempts")
+
+
 def required_cells():
     """the cells every run must exercise (else the correspondence reports a coverage hole)"""
     need = {("meas",), ("meas-unstored",), ("global",), ("swap", "none", "contig", "nocc"), ("swap", "none", "gap", "nocc"),
@@ -781,6 +1147,8 @@ class C20(PropertyCheck):
         "QipVerif.C20.unstored_measurement_counterexample",
         "QipVerif.C20.unstored_measurement_covered",
         "QipVerif.C20.unstored_measurement_box",
+        "QipVerif.C20.relayout_is_fresh",
+        "QipVerif.C20.relayout_counterexample",
     ]
     technique = ("Lean 4 proof (invariants of the renderer's append-only row state, by induction over the circuit; exact "
                  "characterisation of the inputs that are drawn) + model/implementation correspondence with exact string "
@@ -818,10 +1186,21 @@ class C20(PropertyCheck):
                   "drawn through the file output path draw('text', save=True, file_path=<private temp dir>): the printed rows AND "
                   "the lines of the saved file are compared with the model's picture; TextRenderer(qc).layout(); .save(path) on a "
                   "further stream (half of it forced to have classical wires); the string oracle judges the printed and both "
-                  "saved pictures.")
-    level_note = ("Full strength for the repaired variant; on /repo as it is now (C20-1..3 applied, C20-4 not) the only valid "
-                  "circuits not drawn are those with a measurement without classical_store (TypeError; theorem "
-                  "unstored_measurement_not_drawn, proposed fix fixes/C20-4.patch, check green on both trees). "
+                  "saved pictures. OBJECT FORMS: the same element enters the circuit by name string, as library class instance, "
+                  "as generic Gate object, as ControlledGate(target_gate=...) with several controls / control values, moved "
+                  "from another circuit, through add_circuit, appended to qc.gates, measurements by name / as Measurement object; "
+                  "index containers list / numpy ints / bare ints / tuple / ndarray where the library works with them; FREDKIN, "
+                  "TOFFOLI and user gates with 2-3 targets and 1-2 controls in EVERY listed order. LIVE-OBJECT HISTORIES: a "
+                  "circuit is drawn, fields of its live gate objects are re-assigned, gates appended / inserted / removed, other "
+                  "circuits drawn in between, then drawn again (fresh renderer, the same renderer object laid out again, printed "
+                  "and saved again): the picture must be the model's picture of the circuit as it is then = the drawing of a "
+                  "freshly built circuit, and every drawing must leave the gate list and every field of every element unchanged. "
+                  "Contract in the model: render is a function of the current fields and the style only; the one place where the "
+                  "code keeps state across calls - a second layout() on the same TextRenderer object - is modelled (relayoutSt / "
+                  "render2): relayout_is_fresh for a tree with fixes/C20-5, relayout_counterexample for /repo (finding C20-5).")
+    level_note = ("Full strength for the repaired variant; /repo has C20-1..4 applied. Open finding C20-5 (proposed "
+                  "fixes/C20-5.patch): TextRenderer.layout() called a second time on the same renderer object writes the picture "
+                  "again behind the first one; QubitCircuit.draw always makes a new renderer and is not affected. "
                   "Classical controls are not drawn by the text renderer at all (nor by the matplotlib renderer), so the clause "
                   "on links says nothing about them: a reader of the picture cannot see that a gate is classically controlled "
                   "(observation, not recorded as a finding). Outside the model: negative indices (Python wrap-around), "
@@ -854,13 +1233,16 @@ class C20(PropertyCheck):
             "qubits; malformed stream: out-of-range wires, empty target lists, multi-target measurements, short/long/empty "
             "wire_label, negative end_wire_ext, glyphs inside labels; every required (kind, control positions, target shape, "
             "classical control) cell, every kind under each style option and every kind on >= 10 qubits must occur in the run "
-            "(else a coverage disagreement); each case compares model picture = printed rows = saved file; non-trivial = at least one operation spanning >= 2 wires or >= 2 operations")
+            "(else a coverage disagreement); forms stream: every listed order of targets/controls of FREDKIN, TOFFOLI, user gates x "
+            "object form x container type on 4+2 wires, + random forms; history stream: first drawing, 0-3 edits of the live "
+            "objects, second drawing by draw / relayout / reprint, 30% after another circuit was drawn; every object form, "
+            "container type, edit kind and reuse mode must occur; each case compares model picture = printed rows = saved file; non-trivial = at least one operation spanning >= 2 wires or >= 2 operations")
 
     # ---------------------------------------------------------------------------------
     def regenerate(self, ctx):
         """No generated Lean file: the model is parametric in `Render.Variant`; which variant the tree at
         hand is, is read from its source and sent to the driver with every request (`var=`)."""
-        VARIANT.update({"spanFix": False, "insideNode": False, "globalBox": False, "measBox": False})
+        VARIANT.update({"spanFix": False, "insideNode": False, "globalBox": False, "measBox": False, "resetLayout": False})
         RECOGNISED[0] = False
         var, problems = detect_variant()
         VARIANT.update(var)
@@ -915,6 +1297,18 @@ class C20(PropertyCheck):
                    sorted(set(f"targets={c_[2]}" for c_ in cells if len(c_) == 4 and c_[0] in ("multi", "swap")))
             if any(len(c_) == 4 and c_[3] == "cc" for c_ in cells):
                 tags.append("classical-controls")
+            allops = w["ops"] + w.get("ops0", []) + [e["op"] for e in w.get("edits", []) if "op" in e]
+            forms = set(("g:" if o_["k"] == "g" else "m:") + form_of(o_) for o_ in allops if o_["k"] in "gm" and ("form" in o_))
+            conts = set(o_["cont"] for o_ in allops if "cont" in o_)
+            tags += sorted("form=" + f for f in forms) + sorted("cont=" + c_ for c_ in conts)
+            if "before" in w:
+                tags.append("drawn-after-another-circuit")
+            if "ops0" in w or "reuse" in w:
+                tags += ["reuse=" + w.get("reuse", "draw")] + sorted(set("edit=" + (e["e"] + (":" + e["field"] if e["e"] == "set" else ""))
+                                                                          for e in w.get("edits", [])))
+            if mst == "ok":
+                self.forms |= forms | set("cont=" + c_ for c_ in conts) | ({"reuse=" + w["reuse"]} if "reuse" in w else set()) | \
+                    set("edit=" + e["e"] for e in w.get("edits", []))
             if mst == "ok":
                 self.cells |= cells
                 for c_ in cells:
@@ -943,7 +1337,7 @@ class C20(PropertyCheck):
 
     def correspondence(self, ctx, res):
         rng = ctx.rng
-        self.cells, self.cells_style, self.cells_wide = set(), set(), set()
+        self.cells, self.cells_style, self.cells_wide, self.forms = set(), set(), set(), set()
         read = self._style_fields_read()
         res.case({"style_fields_read": sorted(read)}, nontrivial=False, tags=["stream=style-fields"])
         if read != STYLE_READ:
@@ -995,6 +1389,21 @@ class C20(PropertyCheck):
         n = 6000 if ctx.thorough else 700
         self._compare(ctx, res, [rand_circuit(rng, wild=False, allow_gap=True, minN=10, maxN=14 if not ctx.thorough else 24,
                                               maxops=8) for _ in range(n)], "wide")
+        # 2c. object forms: every listed order of targets / controls x how the element gets into the circuit x container types
+        batch = list(forms_cases())
+        self._compare(ctx, res, batch, "forms")
+        n = 12000 if ctx.thorough else 1200
+        self._compare(ctx, res, [random_forms(rng, rand_circuit(rng, wild=False, allow_gap=True, maxops=8)) for _ in range(n)],
+                      "forms-random")
+        res.notes.append(f"object forms: {len(batch)} systematic drawings (FREDKIN / TOFFOLI / user gates with 2-3 targets and 1-2 controls "
+                         f"in every listed order, CNOT, SWAP, one-qubit gates, measurements; forms {FORMS_G} / {FORMS_M}; containers "
+                         f"{CONTS}; wire labels of different lengths incl. a classical label longer than every qubit label) + {n} random")
+        # 2d. live-object histories: drawn, live gate objects re-assigned / gates appended, inserted, removed, drawn again
+        #     (fresh renderer, the same renderer object laid out again, or printed again); the circuit must be left unchanged
+        n = 10000 if ctx.thorough else 1200
+        self._compare(ctx, res, [history_case(rng, for_oracle=False) for _ in range(n)], "history")
+        res.notes.append(f"live-object histories: {n} (second drawing = model picture of the circuit as it is then = drawing of a "
+                         f"freshly built circuit; reuse modes {REUSE}; the circuit's gate list and all fields unchanged by every drawing)")
         # 3. malformed / unusual stream
         n = 25000 if ctx.thorough else 2500
         self._compare(ctx, res, [rand_circuit(rng, wild=True, maxN=4, maxC=2, maxops=5) for _ in range(n)], "wild")
@@ -1031,6 +1440,10 @@ class C20(PropertyCheck):
             sorted((k, o) for k in kinds for o in ("gate_pad", "wire_label", "end_wire_ext", "align_layer")
                    if (k, o) not in self.cells_style) + \
             sorted((k, "N>=10") for k in kinds if k not in self.cells_wide)
+        want = set("g:" + f for f in FORMS_G) | set("m:" + f for f in FORMS_M) | set("cont=" + c_ for c_ in CONTS) | \
+            {"reuse=draw", "reuse=reprint", "edit=set", "edit=append", "edit=insert", "edit=remove"} | \
+            {"reuse=relayout"}
+        holes += sorted(("form", x) for x in want - self.forms)
         res.case({"coverage_cells": len(self.cells)}, nontrivial=False, tags=["stream=coverage"])
         res.notes.append(f"coverage: {len(self.cells)} distinct (kind, control positions, target shape, classical controls) cells "
                          f"drawn; every kind under each of the 4 style options and on >= 10 qubits; holes: {holes}")
@@ -1041,15 +1454,72 @@ class C20(PropertyCheck):
 
     # ---------------------------------------------------------------------------------
     def oracle_replay(self, ctx, w):
+        """The property on the real code for one witness.  A failure seen in this (long-running) process is confirmed in a
+        fresh process before it is reported, so that every reported input reproduces by its replay; a failure that exists
+        only after the earlier drawings of this process is turned into a witness that names them (`before`)."""
+        fails, detail = self._oracle_inproc(ctx, w)
+        if not fails or os.environ.get("C20_HERMETIC_CHILD"):
+            self._prev = w
+            return fails, detail
+        # at most FRESH_MAX confirmations per run (each costs a process start); beyond that only the self-contained
+        # history witnesses (deterministic: they carry their own earlier drawings) are reported unconfirmed
+        if self.fresh_used >= self.FRESH_MAX:
+            return (True, detail) if ("ops0" in w or "before" in w) else (False, "unconfirmed (budget of fresh processes used): " + detail)
+        self.fresh_used += 1
+        f2, d2 = self._oracle_fresh(w)
+        if f2 is not False:
+            return True, detail
+        prev = getattr(self, "_prev", None)
+        note = "passes in a fresh process; failed after the earlier drawings of the checking process: " + detail
+        if prev is not None and "before" not in w:
+            w2 = dict(w, before=[{k: v for k, v in prev.items() if k in ("N", "C", "style", "ops")}])
+            f3, d3 = self._oracle_fresh(w2)
+            if f3:
+                self.state_witnesses.append((w2, "drawn after another circuit in the same process: " + str(d3)))
+        return False, note
+
+    state_witnesses = []
+    FRESH_MAX = 10
+    fresh_used = 0
+
+    def _oracle_fresh(self, w):
+        """(fails, detail) of the witness evaluated by `./check C20 --replay` in a new process; (None, …) if that cannot be run"""
+        import json, subprocess
+        path = _save_path() + ".witness.json"
+        with open(path, "w") as fh:
+            json.dump({"property": "C20", "kind": "failing-input", "witness": w}, fh)
+        try:
+            out = subprocess.run([os.path.join(paths.VERIF, "check"), "C20", "--replay", path], capture_output=True, text=True,
+                                 timeout=120, env=dict(os.environ, C20_HERMETIC_CHILD="1", VERIF_REPO=paths.REPO)).stdout
+        except Exception as e:
+            return None, repr(e)
+        finally:
+            os.remove(path)
+        line = next((l for l in out.splitlines() if l.startswith(("FAILS: ", "passes: "))), None)
+        if line is None:
+            return None, out[-200:]
+        return line.startswith("FAILS: "), line.split(": ", 1)[1]
+
+    def _oracle_inproc(self, ctx, w):
+        del _KEEP[:]
         if not in_domain(w):
             # outside the quantifier of the property: only "the two sides agree" is claimed there
             return False, "input outside the property's domain (malformed stream)"
         st, rows, saved = impl_draw_saved(w)                 # qc.draw("text", save=True, file_path=<private temp dir>)
+        hist = ""
+        if "ops0" in w or "reuse" in w:
+            hist = f"live circuit after {len(w.get('edits', []))} edit(s), second drawing by {w.get('reuse', 'draw')}: "
+        if st == "circuit-changed-by-drawing":
+            return True, hist + "drawing changed the circuit (its gate list or a field of one of its elements)"
         if st != "ok":
-            return True, f"drawing fails with {st}"
+            return True, hist + f"drawing fails with {st}"
         bad = oracle_rows(w, rows)
+        if hist:
+            fst, frows = impl_draw(w)
+            if (fst, frows) != ("ok", rows):
+                bad.insert(0, "the drawing differs from the drawing of a freshly built circuit with the same fields")
         if bad:
-            return True, "; ".join(bad[:4])
+            return True, hist + "; ".join(bad[:4])
         # the file output: the same clauses on the lines of the saved file, for both ways of writing it
         st2, rows2, saved2 = impl_draw_saved(w, via="layout")    # r = TextRenderer(qc); r.layout(); r.save(path)
         if st2 != "ok":
@@ -1092,8 +1562,21 @@ class C20(PropertyCheck):
                     yield w, d
             if time.time() - t0 > budget_s:
                 return
+        for w in forms_cases():
+            if covered(w):
+                f, d = self.oracle_replay(ctx, w)
+                if f:
+                    yield w, d
+            if time.time() - t0 > budget_s:
+                return
+        k = 0
         while time.time() - t0 < budget_s:
+            k += 1
             w = rand_circuit(ctx.rng, wild=False, allow_gap=VARIANT["spanFix"] or not RECOGNISED[0], maxops=rng_small(ctx.rng))
+            if k % 3 == 1:
+                w = history_case(ctx.rng)
+            elif k % 3 == 2:
+                w = random_forms(ctx.rng, w)
             if not covered(w):
                 continue
             f, d = self.oracle_replay(ctx, w)
@@ -1103,6 +1586,12 @@ class C20(PropertyCheck):
     def oracle_always(self, ctx):
         """Sweep of the string oracle over the class the theorems cover for the variant of the tree
         (`covered`): on the repaired tree the whole domain."""
+        del self.state_witnesses[:]
+        self.fresh_used = 0
+        yield from self._sweep(ctx)
+        yield from self.state_witnesses          # failures that need an earlier drawing in the same process
+
+    def _sweep(self, ctx):
         k = 0
         for w in self._systematic():
             k += 1
@@ -1114,6 +1603,17 @@ class C20(PropertyCheck):
                     yield w, d
         for k, w in enumerate(matrix_cases(False)):
             if (k % 2 == 0 or ctx.thorough) and covered(w):
+                f, d = self.oracle_replay(ctx, w)
+                if f:
+                    yield w, d
+        for k, w in enumerate(forms_cases()):
+            if (k % 3 == 0 or ctx.thorough) and covered(w):
+                f, d = self.oracle_replay(ctx, w)
+                if f:
+                    yield w, d
+        for k in range(6000 if ctx.thorough else 600):
+            w = history_case(ctx.rng) if k % 2 else random_forms(ctx.rng, rand_circuit(ctx.rng, wild=False, maxops=6))
+            if covered(w):
                 f, d = self.oracle_replay(ctx, w)
                 if f:
                     yield w, d
